@@ -23,26 +23,26 @@
   (let ((end (bytevector-length bv))
         (buf (make-bytevector max-col))
         (out (open-output-bytevector)))
-    (let lp ((i 0) (col start-col))
+    (let lp ((i 0) (col start-col) (from start-col))
       (cond
        ((= i end)
-        (write-bytevector (bytevector-copy buf 0 col) out)
+        (write-bytevector (bytevector-copy buf from col) out)
         (get-output-bytevector out))
        ((>= col (- max-col 3))
-        (write-bytevector (bytevector-copy buf 0 col) out)
+        (write-bytevector (bytevector-copy buf from col) out)
         (write-bytevector separator out)
-        (lp i 0))
+        (lp i 0 0))
        (else
         (let ((c (bytevector-u8-ref bv i)))
           (cond
            ((and (<= 33 c 126) (not (memq c '(61 63 95))))
             (bytevector-u8-set! buf col c)
-            (lp (+ i 1) (+ col 1)))
+            (lp (+ i 1) (+ col 1) from))
            (else
             (bytevector-u8-set! buf col (char->integer #\=))
             (bytevector-u8-set! buf (+ col 1) (hex (arithmetic-shift c -4)))
             (bytevector-u8-set! buf (+ col 2) (hex (bitwise-and c #b1111)))
-            (lp (+ i 1) (+ col 3))))))))))
+            (lp (+ i 1) (+ col 3) from)))))))))
 
 ;;> Return a quoted-printable encoded representation of the input
 ;;> according to the official standard as described in RFC2045.
